@@ -340,8 +340,8 @@ def run(case, ctx):
         # ---- oracle
         for k in keys:
             oM, oT = adapters.observe(real[k]), adapters.observe(twins[k])
-            if canon(oM) != canon(oT):
-                key = next(x for x in oT if canon(oM.get(x)) != canon(oT[x]))
+            if not ctx.same_obs(oM, oT):
+                key = next(x for x in oT if not ctx.same_obs(oM.get(x), oT[x]))
                 ctx.violation("member", f"C12:member:{type(real[k]).__name__}:{key}",
                               f"event {i} ({ev[0]}): member {k} inside the ensemble reports {key}={str(oM.get(key))[:120]} but the same detector "
                               f"run alone on its selected columns reports {str(oT[key])[:120]}; selector={case['selectors'].get(k)} container={container}")
